@@ -410,6 +410,7 @@ RULES = {
     "R24": "`for (a, b) in xs.iter().zip(ys) {` (ys: Vec by value) -> `for a in xs.iter() { let b = match zip_next(&mut ys) { Some(b) => b, None => break };` (zip's own evaluation order)",
     "R25": "bindgen idioms: `T { type_: X, ..Default::default() }` -> T_with_type(X) (all-zero default); `e as u8` on a fieldless repr(u8) enum -> named conversion whose table is a Kani layout obligation",
     "R26": "match arm `P(A | B) if g => e,` -> two consecutive arms `P(A) if g => e, P(B) if g => e,`",
+    "R27": "`x |= Flags::CONST;` on a bitflags value -> `x = x | Flags::CONST;`",
     "R12": "Some(&[fd.as_raw_fd()]) -> fds1(&fd) (one-element descriptor list lent from a File)",
 }
 
@@ -703,6 +704,8 @@ class Unit:
         text = rw.sub("R12", r'Some\(\s*&\[\s*(\w+\.into_raw_fd\(\))\s*\]\s*\)', r'fd_slice1(\1)', text)
         for (rule, pat, rep) in (extra or []):
             text = rw.sub(rule, pat, rep, text, flags=re.S)
+        # R27: `x |= FlagsType::CONST;` on a bitflags value -> `x = x | FlagsType::CONST;` (BitOrAssign of bitflags = BitOr + assignment)
+        text = rw.sub("R27", r'(?m)^(\s*)([\w\.]+)\s*\|=\s*(VhostUser\w+::\w+)\s*;', r'\1\2 = \2 | \3;', text)
         # R26: `P(.. A | B ..) if g => e,` -> two arms with the same guard and body (Verus rejects or-pattern + guard in one arm)
         text = rw.sub("R26", r'(?P<pre>\b[\w:]+\((?:\s*[\w:]+\()*)\s*(?P<a>[\w:]+(?:\([^()|]*\))?)\s*\|\s*(?P<b>[\w:]+(?:\([^()|]*\))?),?\s*(?P<post>\)+)\s*if\s+(?P<g>[^=]+?)\s*=>\s*(?P<e>[^,{]+),',
                       lambda m: "%s%s%s if %s => %s,\n            %s%s%s if %s => %s," % (m.group('pre'), m.group('a'), m.group('post'), m.group('g'), m.group('e'),
